@@ -59,4 +59,4 @@ def run(ctx):
                 "thorough: every pair of the full pool x 3 separators); each input judged once, in both comment modes; "
                 "distinct = distinct token-kind sequence of the XGo scanner")
     ctx.assumptions += ["domain predicate: neither scanner returns ILLEGAL, the XGo scanner returns no keyword and no c\"/py\" string",
-                        "error reports are compared as sets of offsets"]
+                        "error reports are not part of the statement of C32: differences are counted (error_offset_differences_outside_statement), not judged"]
